@@ -115,7 +115,19 @@ def children(found, path):
         return set()
     else:
         locs = list(found.spec.submodule_search_locations)
-    return {m.name for m in pkgutil.iter_modules(locs)}
+    # Only names that can be written in an import statement are module names a completion can offer
+    # (C12 requires proposals to be identifiers): e.g. '_sysconfigdata__linux_x86_64-linux-gnu' is enumerated by
+    # pkgutil but is not an identifier; such names are counted, not required.
+    out = set()
+    for m in pkgutil.iter_modules(locs):
+        if m.name.isidentifier():
+            out.add(m.name)
+        else:
+            NON_IDENTIFIER_CHILDREN[0] += 1
+    return out
+
+
+NON_IDENTIFIER_CHILDREN = [0]
 
 
 def same_file(a, b):
